@@ -15,8 +15,10 @@ are hex strings of the item's bytes *in memory order* (so a swapped array holds 
 """
 import contextlib
 import copy
+import gc
 import io
 import os
+import re
 import shutil
 import struct
 import sys
@@ -743,7 +745,7 @@ def gen_sqlite(rng):
   elif fail == 'strfeat':
     calls.append([[new_id().hex(), gen_examples(rng, 2, mode='strfeat')]])
   return {'kind': 'sqlite', 'calls': calls, 'arg': rng.choice(['list', 'list', 'gen', 'iter', 'tuple']),
-          'ctx': rng.random() < 0.7}
+          'ctx': rng.choice([True, True, True, False, 'drop'])}
 
 
 def gen_sqlite_many_small(rng, n_calls):
@@ -753,7 +755,7 @@ def gen_sqlite_many_small(rng, n_calls):
     k = rng.choice([0, 1, 1, 2, 3])
     calls.append([[big_id(g + j).hex(), big_examples(g + j)] for j in range(k)])
     g += k
-  return {'kind': 'sqlite', 'calls': calls, 'arg': rng.choice(['list', 'gen', 'iter']), 'ctx': rng.random() < 0.5}
+  return {'kind': 'sqlite', 'calls': calls, 'arg': rng.choice(['list', 'gen', 'iter']), 'ctx': rng.choice([True, False, 'drop'])}
 
 
 def big_id(g):
@@ -961,13 +963,13 @@ class C16(core.Property):
             yield {**case, 'big': big[:i] + [c] + big[i + 1:]}
       if case.get('arg', 'list') != 'list':
         yield {**case, 'arg': 'list'}
-      if not case.get('ctx', True):
+      if case.get('ctx', True) is not True:
         yield {**case, 'ctx': True}
     elif k == 'sqlite':
       calls = case['calls']
       if case.get('arg', 'list') != 'list':
         yield {**case, 'arg': 'list'}
-      if not case.get('ctx', True):
+      if case.get('ctx', True) is not True:
         yield {**case, 'ctx': True}
       for i in range(len(calls)):
         if len(calls) > 1:
@@ -1063,21 +1065,22 @@ class C16(core.Property):
       if mrt[0] != 'err':
         corr.append(f'impl raised {impl[2]} in {impl[1]}, model returns {_short(mrt)}')
       elif len(bad) == 1 and [impl[1], impl[2]] != mrt[1:]:
-        corr.append(f'error differs: impl {impl[1]}:{impl[2]} model {mrt[1]}:{mrt[2]}')
-    wire_impl = None
+        # which call rejects the value, and with which exception class, is not fixed by the property
+        # ("rejected with an error"): recorded, never a failure
+        ctx.count('monitor:error_stage_or_class_differs_from_model')
+    # Wire level (below the property, which only fixes deserialize(serialize(x))): the real bytes are re-read by an
+    # independent msgpack parser and compared with the model's `encode`. A difference is recorded in the
+    # evidence (monitors) but is not a failure — a different on-the-wire layout that round-trips is legitimate.
     if impl[-1] is not None:
       try:
         wire_impl = norm(parse_msgpack(impl[-1]))
-      except WireError as e:
-        corr.append(f'msgpack_serialize output is not well-formed msgpack: {e}')
-      menc = ans[2]
-      if wire_impl is not None:
-        if menc[0] != 'ok':
-          corr.append(f'msgpack_serialize accepted a value the model rejects ({menc[1]})')
-        elif menc[1] != wire_impl:
-          corr.append(f'wire format differs from the model: impl {_short(wire_impl)} model {_short(menc[1])}')
-    elif ans[2][0] == 'ok' and impl[0] == 'err' and impl[1] == 'enc':
-      corr.append(f'msgpack_serialize raised {impl[2]}, the model encodes the value')
+        menc = ans[2]
+        if menc[0] == 'ok' and menc[1] == wire_impl:
+          ctx.count('monitor:wire_format_equals_model')
+        else:
+          ctx.count('monitor:wire_format_differs_from_model')
+      except (WireError, Exception):   # pylint: disable=broad-except
+        ctx.count('monitor:wire_not_msgpack')
 
     tags = set()
     leaf_tags(spec, tags)
@@ -1112,20 +1115,59 @@ class C16(core.Property):
           b.add_many(as_arg([(i, o) for i, o, _ in rows]))
           log.append('ok')
           stored.extend(rows)
+          # add_many has returned: what it was given is in the file now, also for a reader opened while the
+          # builder is still open (and for a builder that is never closed, see `drop` below)
+          mid = self.sq.SQLiteFederatedData.new(path)
+          try:
+            listed = set(mid.client_ids())
+          finally:
+            _close_reader(mid)
+          lost = [i for i, _, _ in stored if i not in listed and i not in optional_ids]
+          if lost and len(midbuild) < 2:
+            midbuild.append(f'after add_many #{len(log) - 1} returned (builder still open), a new reader of the file '
+                            f'does not list {len(lost)} of the clients written so far (first: {lost[:3]})')
         except Exception as e:   # pylint: disable=broad-except
           log.append(type(e).__name__)
           break                  # the builder is closed after a failed call (rollback)
 
+    # Which calls are inside the property's domain (valid examples: >= 1 feature, all with the same number of
+    # rows; ids not written before). What add_many does with anything else — reject it, which exception,
+    # whether rows of the same call that came earlier are kept — is not stated by the property: such calls are
+    # still made, but nothing is demanded of them except that they do not disturb the other clients.
+    def call_in_domain(call, seen):
+      ok = True
+      for i, s in call:
+        dims = [v[1][0] if (v[0] in ('nd', 'obj') and v[1]) else None for _, v in s[1]] if s[0] == 'dict' else []
+        if not dims or None in dims or len(set(dims)) != 1:
+          ok = False
+        if bytes.fromhex(i) in seen:
+          ok = False
+          optional_ids.add(bytes.fromhex(i))
+        seen.add(bytes.fromhex(i))
+      return ok
+
+    optional_ids = set()
+    seen_ids = set()
+    in_domain = [call_in_domain(c, seen_ids) for c in calls]
+    for c, okc in zip(calls, in_domain):
+      if not okc:
+        optional_ids |= {bytes.fromhex(i) for i, _ in c}
+
     d = tempfile.mkdtemp(prefix='c16sq')
     path = os.path.join(d, 'data.sqlite')
     problems, corr = [], []
-    log, stored = [], []          # stored: (id bytes, object, spec) of committed rows
+    log, stored, midbuild = [], [], []   # stored: (id bytes, object, spec) of rows of calls that returned normally
     out_buf = io.StringIO()
     try:
       with contextlib.redirect_stdout(out_buf):
-        if use_ctx:
+        if use_ctx is True:
           with self.sq.SQLiteFederatedDataBuilder(path) as b:
             fill(b)
+        elif use_ctx == 'drop':      # plain object that is simply dropped when the caller is done
+          b = self.sq.SQLiteFederatedDataBuilder(path)
+          fill(b)
+          del b
+          gc.collect()
         else:                        # plain object, closed explicitly through its exit protocol
           b = self.sq.SQLiteFederatedDataBuilder(path)
           try:
@@ -1158,46 +1200,29 @@ class C16(core.Property):
             problems.append('client_size of an absent id did not raise')
           except KeyError:
             pass
+          # reads of ONE reader object interleaved with each other
+          strict = [r for r in stored if r[0] not in optional_ids]
+          inter = self._interleaved_reads(fd, ids, per, strict)
           # what was handed out so far is judged as it was when handed out ...
           per = copy.deepcopy(per)
           via_clients = copy.deepcopy(via_clients)
           # ... and then the caller edits what it is handed, and reads again
-          reread = self._reread_after_mutation(fd, path, ids, per, stored)
+          reread = self._reread_after_mutation(fd, path, ids, per, strict)
         finally:
-          fd._connection.close()   # pylint: disable=protected-access
+          _close_reader(fd)
     finally:
       shutil.rmtree(d, ignore_errors=True)
 
     # ---- independent oracle
-    def expect_call_error(call, seen):
-      """None if the property says the call must succeed, else a set of acceptable outcomes."""
-      for i, s in call:
-        if s[0] != 'dict' or not s[1]:
-          return 'ValueError'
-        dims = []
-        for _, v in s[1]:
-          if v[0] not in ('nd', 'obj') or not v[1]:
-            return 'IndexError'
-          dims.append(v[1][0])
-        if len(set(dims)) != 1:
-          return 'ValueError'
-        if bytes.fromhex(i) in seen:
-          return 'IntegrityError'
-        seen.add(bytes.fromhex(i))
-      return None
-
-    seen = set()
-    for j, (call, res) in enumerate(zip(calls, log)):
-      want = expect_call_error(call, seen)
-      if want is None and res != 'ok':
+    for j, (okc, res) in enumerate(zip(in_domain, log)):
+      if okc and res != 'ok':
         problems.append(f'add_many #{j} of valid examples raised {res}')
-      if want is not None and res == 'ok':
-        problems.append(f'add_many #{j} should have been rejected ({want}) but succeeded')
+    stored = [r for r in stored if r[0] not in optional_ids]     # the rows the property speaks about
     want_ids = [i for i, _, _ in stored]
     # the order in which ids are listed is not part of the property (rowid vs sorted order are both fine)
-    if sorted(ids) != sorted(want_ids):
+    if not (set(want_ids) <= set(ids) <= set(want_ids) | optional_ids) or len(ids) != len(set(ids)):
       missing = sorted(set(want_ids) - set(ids))
-      extra = sorted(set(ids) - set(want_ids))
+      extra = sorted(set(ids) - set(want_ids) - optional_ids)
       pos = [want_ids.index(m) for m in missing[:5]]
       problems.append(f'client ids read back differ from the {len(want_ids)} committed by add_many (sizes of the calls made: '
                       f'{[len(c) for c in calls[:len(log)]]}, results {log[:6]}): {len(ids)} listed, {len(missing)} missing '
@@ -1205,8 +1230,8 @@ class C16(core.Property):
                       + (f', {len(ids) - len(set(ids))} listed twice' if len(ids) != len(set(ids)) else ''))
     if ids != ids2:
       problems.append('client_ids() is not deterministic')
-    if nclients != len(want_ids):
-      problems.append(f'num_clients {nclients} != {len(want_ids)}')
+    if nclients != len(ids) or not len(want_ids) <= nclients <= len(want_ids) + len(optional_ids):
+      problems.append(f'num_clients {nclients} != {len(want_ids)} (client_ids lists {len(ids)})')
     def lead(s):
       try:
         return s[1][0][1][1][0]
@@ -1214,7 +1239,7 @@ class C16(core.Property):
         return None
 
     want_sizes = [(i, lead(s)) for i, _, s in stored]
-    if sorted(tuple(x) for x in sizes) != sorted(want_sizes):
+    if sorted(tuple(x) for x in sizes if x[0] not in optional_ids) != sorted(want_sizes):
       problems.append(f'client sizes read back != row counts written: {_short(repr(sorted(set(map(tuple, sizes)) ^ set(want_sizes))[:6]))}')
     key = None
     per_by_id = dict(zip(ids, per))
@@ -1238,13 +1263,19 @@ class C16(core.Property):
         problems.append(f'client {cid!r}: unsupported feature ({bad[0]}) came back without an error')
     if isinstance(via_clients, list):
       if [c for c, _ in via_clients] != ids:
-        problems.append('clients() order differs from client_ids()')
+        problems.append('clients() lists other clients than client_ids()')
       for (cid, exs), (_, ex) in zip(via_clients, per):
         if ex[0] == 'ok' and norm(render(exs)) != norm(render(ex[1])):
           problems.append(f'clients() and get_client() disagree for {cid!r}')
     elif all(ex[0] == 'ok' for _, ex in per):
       problems.append(f'clients() raised {via_clients}')
 
+    if midbuild:
+      problems = midbuild + problems
+      key = key or 'C16/sqlite/not-durable-after-add_many'
+    if inter:
+      problems = inter + problems
+      key = key or 'C16/sqlite/interleaved-reads'
     if reread:
       problems = reread + problems       # most specific first
       key = key or 'C16/sqlite/reread-after-caller-mutation'
@@ -1260,12 +1291,31 @@ class C16(core.Property):
                       for j in order]])
     morder = sorted(range(len(ans[1])), key=lambda j: bytes.fromhex(ans[1][j][1:]))
     ans = [ans[0], [ans[1][j] for j in morder], sorted(ans[2]), [ans[3][j] for j in morder]]
+    keep_ids = {'x' + r[0].hex() for r in stored}
+
+    def in_domain_part(obs):
+      log_, ids_, sizes_, per_ = obs
+      sel = [j for j, i in enumerate(ids_) if i in keep_ids]
+      return [[x for x, okc in zip(log_, in_domain) if okc], [ids_[j] for j in sel],
+              [z for z in sizes_ if z[0] in keep_ids], [per_[j] for j in sel]]
+
+    ans, impl_obs = in_domain_part(ans), in_domain_part(impl_obs)
+
+    def err_class_free(obs):
+      """'rejected with an error': which exception class is not part of the observation"""
+      log_, ids_, sizes_, per_ = obs
+      return [['ok' if x == 'ok' else 'err' for x in log_], ids_, sizes_,
+              [[(sz if sz[0] == 'ok' else ['err']), (ex if ex[0] == 'ok' else ['err'])] for sz, ex in per_]]
+
+    if ans != impl_obs and err_class_free(ans) == err_class_free(impl_obs):
+      ctx.count('monitor:sqlite_error_class_differs_from_model')
+    ans, impl_obs = err_class_free(ans), err_class_free(impl_obs)
     if ans != impl_obs:
       for name, a, b in zip(('add_many log', 'client_ids', 'client_sizes', 'clients'), impl_obs, ans):
         if a != b:
           corr.append(f'sqlite {name}: impl {_short(a)} vs model {_short(b)}')
     tags = {'kind=sqlite', f'calls={size_class(len(calls))}', f'clients={size_class(len(stored))}',
-            f'add_many_arg={arg_mode}', 'builder=' + ('with' if use_ctx else 'plain+exit')}
+            f'add_many_arg={arg_mode}', 'builder=' + ('with' if use_ctx is True else 'plain+dropped' if use_ctx == 'drop' else 'plain+exit')}
     tags |= {f'add_many={x}' for x in log} | {f'call_size={size_class(len(c))}' for c in calls}
     for _, _, s in stored[:50]:
       leaf_tags(s, tags)
@@ -1273,6 +1323,112 @@ class C16(core.Property):
                    key=key or ('C16/sqlite/other' if problems else None),
                    nontrivial=len(stored) > 0, tags=tuple(sorted(tags)),
                    detail={'impl': _short(impl_obs, 1500), 'model': _short(ans, 1500), 'log': log})
+
+  def _interleaved_reads(self, fd, ids, per, stored):
+    """Iterators and point queries of the SAME reader used at the same time: loops over client_ids() /
+    client_sizes() / clients() / shuffled_clients() with get_client / client_size / num_clients /
+    get_clients inside, two iterators zipped, a pass suspended while complete passes run, nested loops.
+    Every read must still be what was written (`ids` = the listing of an undisturbed pass)."""
+    import itertools
+    by_id = {cid: (obj, spec) for cid, obj, spec in stored}
+    readable = {cid for cid, (_, ex) in zip(ids, per) if ex[0] == 'ok'}
+    all_readable = len(readable) == len(ids)
+    rows = {cid: (spec[1][0][1][1][0] if spec[0] == 'dict' and spec[1] and spec[1][0][1][0] in ('nd', 'obj')
+                  and spec[1][0][1][1] else None) for cid, _, spec in stored}
+    n = len(ids)
+    small = n <= 64
+    found = []
+
+    def say(msg):
+      if len(found) < 4:
+        found.append('interleaved reads on one reader: ' + msg)
+
+    def judge(how, cid, ex):
+      if cid in by_id and not bad_leaves(by_id[cid][1]):
+        dd = deep_diff(by_id[cid][0], ex, by_id[cid][1])
+        if dd:
+          say(f'{how}: client {cid!r} is not read back as written: {dd}')
+
+    def same_listing(how, got):
+      if list(got) != list(ids):
+        missing = [c for c in ids if c not in set(got)]
+        say(f'{how} visited {len(got)} of {n} clients (missing first: {missing[:3]}, order kept: '
+            f'{list(got) == [c for c in ids if c in set(got)]})')
+
+    # 1. point queries inside a loop over client_ids()
+    seen = []
+    for cid in fd.client_ids():
+      seen.append(cid)
+      if cid in readable:
+        judge('get_client inside a client_ids() loop', cid, fd.get_client(cid).raw_examples)
+      try:
+        sz = fd.client_size(cid)
+        if cid in rows and rows[cid] is not None and sz != rows[cid]:
+          say(f'client_size({cid!r}) inside a client_ids() loop = {sz}, written {rows[cid]} rows')
+      except KeyError:
+        say(f'client_size({cid!r}) inside a client_ids() loop raised KeyError')
+      if fd.num_clients() != n:
+        say(f'num_clients() inside a client_ids() loop = {fd.num_clients()} != {n}')
+      if len(seen) > n + 2:
+        break
+    same_listing('a client_ids() loop with get_client/client_size/num_clients calls inside', seen)
+
+    # 2. two iterators of the reader consumed in lock step
+    pairs = list(itertools.islice(zip(fd.client_ids(), fd.client_sizes()), n + 2))
+    same_listing('zip(client_ids(), client_sizes()): the ids side', [a for a, _ in pairs])
+    for a, b in pairs:
+      if tuple(b)[0] != a or (a in rows and rows[a] is not None and tuple(b)[1] != rows[a]):
+        say(f'zip(client_ids(), client_sizes()) paired id {a!r} with {tuple(b)!r} (written rows: {rows.get(a)})')
+        break
+
+    # 3. a client_sizes() pass suspended while complete passes run, then resumed
+    it = fd.client_sizes()
+    head = list(itertools.islice(it, 1))
+    full_ids = list(fd.client_ids())
+    full_sizes = list(fd.client_sizes())
+    rest = list(itertools.islice(it, n + 2))
+    same_listing('a complete client_ids() pass run while a client_sizes() pass was suspended', full_ids)
+    same_listing('a client_sizes() pass suspended after one item and resumed after other passes',
+                 [tuple(x)[0] for x in head + rest])
+    if sorted(map(tuple, full_sizes)) != sorted((c, rows[c]) for c in ids if c in rows) and all(
+        rows.get(c) is not None for c in ids):
+      say('a complete client_sizes() pass run while another was suspended differs from what was written')
+
+    if all_readable:
+      # 4. a clients() pass with other queries in between
+      seen = []
+      for cid, ds in itertools.islice(fd.clients(), n + 2):
+        seen.append(cid)
+        judge('clients() loop', cid, ds.raw_examples)
+        if fd.num_clients() != n:
+          say(f'num_clients() inside a clients() loop = {fd.num_clients()} != {n}')
+        if small:
+          for c2, ds2 in fd.get_clients([cid, ids[0]]):
+            judge('get_clients inside a clients() loop', c2, ds2.raw_examples)
+      same_listing('a clients() loop with num_clients/get_clients calls inside', seen)
+      if small and n:
+        # 5. one epoch of shuffled_clients() with point queries inside
+        seen = []
+        for cid, ds in itertools.islice(fd.shuffled_clients(buffer_size=2, seed=3), n):
+          seen.append(cid)
+          judge('shuffled_clients() loop', cid, ds.raw_examples)
+          fd.client_size(cid)
+          judge('get_client inside a shuffled_clients() loop', cid, fd.get_client(cid).raw_examples)
+        if sorted(seen) != sorted(ids):
+          say(f'the first {n} items of shuffled_clients() with get_client/client_size calls inside are not one '
+              f'pass over the clients: {len(set(seen))} distinct of {n}')
+        # 6. nested loops over the same reader
+        outer = []
+        for cid in fd.client_ids():
+          outer.append(cid)
+          inner = [c for c, _ in fd.clients()]
+          if inner != list(ids):
+            say(f'a clients() pass nested inside a client_ids() loop visited {len(inner)} of {n} clients')
+            break
+          if len(outer) > n + 2:
+            break
+        same_listing('the outer client_ids() loop around nested clients() passes', outer)
+    return found
 
   def _reread_after_mutation(self, fd, path, ids, per, stored):
     """Reads clients again (same reader, derived views, a fresh reader; get_client / get_clients /
@@ -1359,7 +1515,7 @@ class C16(core.Property):
         read_all('after an in-place preprocess_client pass', fd)
         read_all('fresh reader, after all edits', f2)
     finally:
-      f2._connection.close()   # pylint: disable=protected-access
+      _close_reader(f2)
     return found
 
   # ---------------------------------------------------------------- pickle: save_state/load_state
@@ -1442,7 +1598,7 @@ class C16(core.Property):
       raise
     except Exception as e:   # pylint: disable=broad-except
       raise InfraError(f'cannot build {algo}/{opt} server state in this environment: {type(e).__name__}: {e}')
-    problems = []
+    problems, corr, obs = [], [], []
     d = tempfile.mkdtemp(prefix='c16ck')
     try:
       # save_state / load_state directly, also onto a path that already holds another state
@@ -1461,9 +1617,19 @@ class C16(core.Property):
       if self.ckpt.load_latest_checkpoint(root) is not None:
         problems.append('load_latest_checkpoint of an empty directory is not None')
       files = {}
+      states = [jax.tree_util.tree_map(
+          lambda x, step=step: x + (step + 1) * 8 if hasattr(x, 'dtype') and x.dtype.kind == 'f' else x, base)
+                for step in range(len(hist))]
+
+      def which(loaded):
+        """index of the save whose state this is (-1: none of them)"""
+        for j, sj in enumerate(states):
+          if state_diff(sj, loaded) is None:
+            return j
+        return -1
+
       for step, r in enumerate(hist):
-        st = jax.tree_util.tree_map(
-            lambda x, step=step: x + (step + 1) * 8 if hasattr(x, 'dtype') and x.dtype.kind == 'f' else x, base)
+        st = states[step]
         if r is None:
           self.ckpt.save_checkpoint(root, st, keep=keep)       # default round_num
           r = 0
@@ -1473,12 +1639,23 @@ class C16(core.Property):
         for old_r in sorted(files)[:-keep]:
           del files[old_r]
         what = f'after save #{step} (round {r}) of history {hist} with keep={keep}'
+        # The file naming is not part of the property: the listing is judged only when the directory has
+        # the documented `checkpoint_<8 digits>` layout; otherwise only the public loaders are.
         names = sorted(os.listdir(root))
-        want = ['checkpoint_%08d' % x for x in sorted(files)]
-        if names != want:
-          problems.append(f'{what}: checkpoint files {names} != the {keep} highest rounds {want}')
+        listing = None
+        if all(re.fullmatch(r'checkpoint_[0-9]{8}', n) for n in names):
+          listing = []
+          for n in names:
+            try:
+              listing.append([int(n[-8:]), which(self.ser.load_state(os.path.join(root, n)))])
+            except Exception:   # pylint: disable=broad-except
+              listing.append([int(n[-8:]), -2])
+          if [x for x, _ in listing] != sorted(files):
+            problems.append(f'{what}: checkpoint files {names} != the {keep} highest rounds '
+                            f'{["checkpoint_%08d" % x for x in sorted(files)]}')
         top = max(files)
         got = self.ckpt.load_latest_checkpoint(root)
+        obs.append([listing, None if got is None else [got[1], which(got[0])]])
         if got is None:
           problems.append(f'{what}: load_latest_checkpoint returned None')
         else:
@@ -1502,13 +1679,33 @@ class C16(core.Property):
     finally:
       shutil.rmtree(d, ignore_errors=True)
     rs = [0 if r is None else r for r in hist]
+    # ---- correspondence with the Lean model of the checkpoint directory (Dir = round -> state, ascending)
+    model = None
+    if obs and all(r < 10**8 for r in rs) and keep >= 0:
+      model = ctx.drv.ask([line('c16.ckpt', keep, [[r, j] for j, r in enumerate(rs)])])[0]
+      for j, (o, m) in enumerate(zip(obs, model)):
+        if o[1] != m[1]:
+          corr.append(f'after save #{j}: load_latest_checkpoint gives (round, save#) {o[1]}, model {m[1]}')
+        if o[0] is not None and o[0] != m[0]:
+          corr.append(f'after save #{j}: directory (round, save#) {o[0]}, model {m[0]}')
     shape_tag = ('increasing' if all(a < b for a, b in zip(rs, rs[1:])) else
                  'repeats-a-round' if len(set(rs)) < len(rs) else 'non-monotone')
-    return Outcome(oracle_fail='; '.join(problems[:3]) or None, key='C16/ckpt/other' if problems else None,
+    return Outcome(oracle_fail='; '.join(problems[:3]) or None, corr_fail='; '.join(corr[:3]) or None,
+                   key='C16/ckpt/other' if problems else None,
                    nontrivial=True, tags=('kind=ckpt', f'algo={algo}', f'opt={opt}', f'keep={keep}',
                                           f'saves={len(hist)}', f'history={shape_tag}',
                                           'default_round=' + str(any(r is None for r in hist))),
-                   detail={'algo': algo, 'opt': opt, 'hist': hist})
+                   detail={'algo': algo, 'opt': opt, 'hist': hist, 'impl': obs, 'model': model})
+
+
+def _close_reader(fd):
+  """Best-effort release of a reader's SQLite handle (there is no public close; never an error)."""
+  try:
+    conn = getattr(fd, '_connection', None)
+    if conn is not None:
+      conn.close()
+  except Exception:   # pylint: disable=broad-except
+    pass
 
 
 def _short(v, n=400):
